@@ -1,0 +1,8 @@
+//go:build verif
+
+package core
+
+// VerifIsExperimental calls the (unexported) BuildLabel.isExperimental unchanged.
+func VerifIsExperimental(state *BuildState, label BuildLabel) bool {
+	return label.isExperimental(state)
+}
